@@ -23,10 +23,14 @@ def scratch(with_tests=False):
     return base
 
 
+class PatchError(Exception):
+    pass
+
+
 def apply(base, patch):
     r = subprocess.run(['patch', '-p1', '--no-backup-if-mismatch', '-i', patch], cwd=base, capture_output=True, text=True)
     if r.returncode != 0:
-        raise SystemExit('patch does not apply: %s %s' % (r.stdout[-500:], r.stderr[-500:]))
+        raise PatchError('patch does not apply: %s %s' % (r.stdout[-500:], r.stderr[-500:]))
 
 
 def run_demo(base, demo):
@@ -130,9 +134,15 @@ def main():
         evaluate(sys.argv[2], sys.argv[3] if len(sys.argv) > 3 else 'quick')
     if cmd == 'evalall':
         tier = sys.argv[2] if len(sys.argv) > 2 else 'quick'
+        start = sys.argv[3] if len(sys.argv) > 3 else ''
         for ident in sorted(os.listdir(os.path.join(ROOT, 'seeded'))):
+            if ident < start:
+                continue
             if os.path.exists(os.path.join(ROOT, 'seeded', ident, 'meta.json')):
-                evaluate(ident, tier)
+                try:
+                    evaluate(ident, tier)
+                except PatchError as e:
+                    print('%-10s PATCH DOES NOT APPLY to the current tree: %s' % (ident, str(e)[:200]))
 
 
 main()
